@@ -1,6 +1,6 @@
 (* C11 — message framing is independent of how the byte stream is chunked.
    Statements only; proofs in Proofs/LoaderProofs.v. *)
-From DV Require Import Lib.Base Wire.Message Proofs.LoaderProofs Proofs.BodyLocal Proofs.LoadLocal.
+From DV Require Import Lib.Base Wire.Message Proofs.LoaderProofs Proofs.BodyLocal Proofs.LoadLocal Proofs.ReadLimit.
 Local Open Scope N_scope.
 
 (* Full statement: for every partition of every stream, the messages produced and
@@ -56,4 +56,101 @@ Definition ex_msg : bytes := [108;2;0;1; 0;0;0;0; 1;0;0;0; 8;0;0;0; 5;1;117;0; 1
 Example ex_two : length (l_msgs (feed_all loader_new [firstn 5 ex_msg; skipn 5 ex_msg ++ ex_msg])) = 2%nat.
 Proof. vm_compute. reflexivity. Qed.
 Example ex_two_unsplit : length (l_msgs (feed loader_new (ex_msg ++ ex_msg) 0)) = 2%nat.
+Proof. vm_compute. reflexivity. Qed.
+
+(* ---- the read limit (_dbus_message_loader_get_buffer, used by do_reading) --------------------
+   Proofs in Proofs/ReadLimit.v.  All statements are for every loader state and every buffer. *)
+
+(* PROGRESS: the limit is always defined (the model's fuel suffices) and never 0, so the transport
+   never issues a 0-byte read (which it would take for end-of-file) because of the limit *)
+Theorem C11_limit_progress : forall l, exists mx b, max_to_read l = Some (mx, b) /\ 0 < mx.
+Proof. exact max_to_read_progress. Qed.
+Print Assumptions C11_limit_progress.
+
+(* the state queue_messages leaves behind unless it detects corruption *)
+Theorem C11_settled_after_queue : forall l0, l_corrupted (norm l0) = false -> settled (norm l0).
+Proof. exact settled_norm. Qed.
+Print Assumptions C11_settled_after_queue.
+
+(* BOUNDARY: while descriptors are held and a message is in progress, the limit ends exactly at the
+   end of the fixed header (fewer than 16 bytes buffered) or at the end of the message in progress
+   as framed by have_message, and descriptors may not accompany the read: no byte of the NEXT
+   message, nor its descriptors, can be read early *)
+Theorem C11_limit_boundary : forall l,
+  settled l -> l_fds l <> 0 -> l_buf l <> [] ->
+  exists mx, max_to_read l = Some (mx, false) /\
+    (nlen (l_buf l) < 16 -> nlen (l_buf l) + mx = 16) /\
+    (16 <= nlen (l_buf l) -> exists le fl hl bl,
+        have_message (l_max l) (l_buf l) = HaveOk le fl hl bl false /\ nlen (l_buf l) + mx = hl + bl).
+Proof. exact limit_boundary. Qed.
+Print Assumptions C11_limit_boundary.
+
+Theorem C11_limit_in_fixed_header : forall l,
+  l_fds l <> 0 -> 0 < nlen (l_buf l) -> nlen (l_buf l) < 16 ->
+  exists mx, max_to_read l = Some (mx, false) /\ nlen (l_buf l) + mx = 16.
+Proof. exact limit_in_fixed_header. Qed.
+Print Assumptions C11_limit_in_fixed_header.
+
+Theorem C11_limit_in_message : forall l le fl hl bl,
+  l_fds l <> 0 -> 16 <= nlen (l_buf l) ->
+  have_message (l_max l) (l_buf l) = HaveOk le fl hl bl false ->
+  exists mx, max_to_read l = Some (mx, false) /\ nlen (l_buf l) + mx = hl + bl.
+Proof. exact limit_in_message. Qed.
+Print Assumptions C11_limit_in_message.
+
+(* between messages (empty buffer), and whenever no descriptors are held, there is no limit *)
+Theorem C11_limit_empty : forall l, l_buf l = [] -> max_to_read l = Some (DBUS_MAXIMUM_MESSAGE_LENGTH, true).
+Proof. exact limit_empty. Qed.
+Print Assumptions C11_limit_empty.
+
+Theorem C11_limit_no_fds : forall l, l_fds l = 0 -> max_to_read l = Some (DBUS_MAXIMUM_MESSAGE_LENGTH, true).
+Proof. exact limit_no_fds. Qed.
+Print Assumptions C11_limit_no_fds.
+
+(* TOTALITY of the transport loop: it never stalls and the model's fuel suffices *)
+Theorem C11_limited_total : forall l chunk fds,
+  exists l', feed_limited (S (length chunk)) l chunk fds = inl l'.
+Proof. exact feed_limited_total. Qed.
+Print Assumptions C11_limited_total.
+
+(* EQUIVALENCE: reading under the limit produces the messages and the corruption verdict of
+   unlimited reading, for any number of descriptors arriving with the first read *)
+Theorem C11_limited_equiv : forall l0 chunk fds l',
+  feed_limited (S (length chunk)) (norm l0) chunk fds = inl l' ->
+  outcome l' = outcome (feed (norm l0) chunk fds).
+Proof. exact feed_limited_equiv. Qed.
+Print Assumptions C11_limited_equiv.
+
+Theorem C11_limited_correct : forall l0 chunk fds,
+  exists l', feed_limited (S (length chunk)) (norm l0) chunk fds = inl l' /\
+             outcome l' = outcome (feed (norm l0) chunk fds).
+Proof. exact feed_limited_correct. Qed.
+Print Assumptions C11_limited_correct.
+
+(* non-vacuity: a loader holding one descriptor *)
+Example ex_limit_16 : max_to_read (feed loader_new (firstn 16 ex_msg) 1) = Some (8, false).
+Proof. vm_compute. reflexivity. Qed.
+Example ex_limit_5 : max_to_read (feed loader_new (firstn 5 ex_msg) 1) = Some (11, false).
+Proof. vm_compute. reflexivity. Qed.
+Example ex_limit_settled : settled (feed loader_new (firstn 16 ex_msg) 1) /\ l_fds (feed loader_new (firstn 16 ex_msg) 1) = 1.
+Proof. split; [apply (settled_norm (append (add_fds loader_new 1) (firstn 16 ex_msg)))|]; vm_compute; reflexivity. Qed.
+(* a raw state whose buffer starts with a complete message (not settled): the loop skips it *)
+Example ex_limit_skip :
+  max_to_read (mkLoader (ex_msg ++ firstn 3 ex_msg) false V_VALID [] 1 DBUS_MAXIMUM_MESSAGE_LENGTH) = Some (13, false).
+Proof. vm_compute. reflexivity. Qed.
+Example ex_limit_between : max_to_read (feed loader_new [] 1) = Some (DBUS_MAXIMUM_MESSAGE_LENGTH, true).
+Proof. vm_compute. reflexivity. Qed.
+(* limited reading of a message and a half, the descriptor arriving with the first read *)
+Example ex_limited_run :
+  match feed_limited 40 loader_new (ex_msg ++ firstn 12 ex_msg) 1 with
+  | inl l' => (length (l_msgs l'), l_corrupted l', nlen (l_buf l')) = (1%nat, false, 12)
+  | inr _ => False
+  end.
+Proof. vm_compute. reflexivity. Qed.
+(* the same stream continued in a state that already holds the descriptor: reads of 11, 8, 16, 8 bytes *)
+Example ex_limited_run_held :
+  match feed_limited 44 (feed loader_new (firstn 5 ex_msg) 1) (skipn 5 ex_msg ++ ex_msg) 0 with
+  | inl l' => (length (l_msgs l'), l_corrupted l', nlen (l_buf l')) = (2%nat, false, 0)
+  | inr _ => False
+  end.
 Proof. vm_compute. reflexivity. Qed.
